@@ -59,7 +59,9 @@ def case_acyclic(rng):
         _decl_callers(s, rng, max(1, m), 2)
         ie = graphs.bool_forms(rng, s, max(1, m), 2, m)
         st["ie"] = ie
-        return lambda: G.active_edges_acyclic(s, ie, mk)
+        from cspuz.array import BoolArray1D
+        arg = BoolArray1D(ie) if (ie and all(not isinstance(x, bool) for x in ie) and rng.random() < 0.4) else ie
+        return lambda: G.active_edges_acyclic(s, arg, mk)
     mk = graphs.mk_graph(n, edges)
     real = graphs.capture(build)
     line = sx(["acyclic", n, edges, [pexpr(x) for x in st.get("ie", [])], max(1, m) + 2])
@@ -291,8 +293,10 @@ def case_cycle(rng, path=False):
         st["ie"] = [pexpr(x) for x in ie]
 
         def call():
+            from cspuz.array import BoolArray1D
             f = G.active_edges_single_path if path else G.active_edges_single_cycle
-            r = f(s, ie, mk, use_graph_primitive=prim)
+            arg = BoolArray1D(ie) if (ie and all(not isinstance(x, bool) for x in ie) and rng.random() < 0.4) else ie
+            r = f(s, arg, mk, use_graph_primitive=prim)
             return [pexpr(x) for x in r.data]
         return call
     mk = graphs.mk_graph(n, edges)
@@ -406,3 +410,51 @@ def case_crossable(rng):
     real = graphs.capture(build)
     line = sx(["crossable", H, W, sc, prim])
     return real, line, {"fn": "connected_crossable", "H": H, "W": W, "single_cycle": sc, "prim": prim}
+
+
+def case_vgborders_frame(rng):
+    """with_borders through the BoolInnerGridFrame / IntArray2D entry (inner frame dualised to the cell graph)."""
+    from cspuz import graph as G
+    from cspuz.array import IntArray2D
+    from cspuz.grid_frame import BoolInnerGridFrame
+    H, W = rng.randint(1, 3), rng.randint(1, 4)
+    prim = _prim(rng)
+    st = {}
+
+    def build(s):
+        gs = s.int_array((H, W), 1, H * W)
+        st["gs"] = [pexpr(x) for x in gs.data]
+        fr = BoolInnerGridFrame(s, H, W)
+        return lambda: G.division_connected_variable_groups_with_borders(s, group_size=gs, is_border=fr, use_graph_primitive=prim)
+    real = graphs.capture(build)
+    line = sx(["vgborders_frame", H, W, st.get("gs", []), prim])
+    return real, line, {"fn": "with_borders(frame)", "H": H, "W": W, "prim": prim}
+
+
+def case_vgroups_shape(rng):
+    """variable groups with the grid inferred from a 2-D group_size (IntArray2D or list of lists), shape omitted."""
+    from cspuz import graph as G
+    from cspuz.array import IntArray2D
+    H, W = rng.randint(1, 3), rng.randint(1, 3)
+    n = H * W
+    st = {}
+
+    def build(s):
+        ints = [s.int_var(1, n) for _ in range(n)]
+        kind = rng.random()
+        if kind < 0.5:
+            gs = IntArray2D(ints, (H, W))
+            st["gs"] = ["per"] + [pexpr(x) for x in ints]
+        else:
+            flat = [rng.choice([None, rng.randint(1, n), ints[i]]) for i in range(n)]
+            gs = [flat[y * W:(y + 1) * W] for y in range(H)]
+            st["gs"] = ["per"] + [pexpr(x) for x in flat]
+
+        def call():
+            r = G.division_connected_variable_groups(s, group_size=gs)
+            assert r.shape == (H, W)
+            return [pexpr(x) for x in r.data]
+        return call
+    real = graphs.capture(build)
+    line = sx(["vgroups", n, graphs.grid_edges(H, W), st.get("gs", "none"), n])
+    return real, line, {"fn": "variable_groups(shape inferred)", "H": H, "W": W}
